@@ -12,7 +12,7 @@ from concurrent.futures import ThreadPoolExecutor
 from .. import common, tlc
 
 INVS = ["TypeOK", "NeverReportsData", "GridOrderNoDup", "CompleteSoFar", "ExactlyTheMissing",
-        "SecondScanEmpty", "HarvestTouchesOnlyReported", "ParseExact"]
+        "SecondScanEmpty", "NoNewLabels", "HarvestTouchesOnlyReported", "ParseExact"]
 ALLREQ = ("combos", "cases", "mixed", "partial", "foreigncombo", "foreigncase")
 BOTH = ("isnull", "isfinite")
 V3 = ("data", "nan", "inf")
@@ -76,21 +76,21 @@ def _tlc(*a, **kw):
         return tlc.run_mc(*a, **kw)
 
 
-def consts_of(shape, rule="all", modes=("find", "parse")):
+def consts_of(shape, rule="all", modes=("find", "parse"), labelby="given"):
     name, sizes, nv, intvars, vals, methods, kindsel, reqs, emit, sample = shape
     if not reqs:
         modes = ("find",)
     return dict(Sizes=list(sizes), NV=nv, IntVars=set(intvars) if intvars else tlc.Raw("{}"), TSize=2,
                 Vals=set(vals), Methods=set(methods),
                 KindSel={kindsel} if isinstance(kindsel, str) else set(kindsel),
-                Modes=set(modes), ReqKinds=set(reqs) if reqs else tlc.Raw("{}"), Rule=rule)
+                Modes=set(modes), ReqKinds=set(reqs) if reqs else tlc.Raw("{}"), Rule=rule, LabelBy=labelby)
 
 
-def run_shape(shape, rule="all", emit=None, **kw):
+def run_shape(shape, rule="all", emit=None, labelby="given", **kw):
     emit = shape[8] if emit is None else emit
     tail = "".join("INVARIANT %s\n" % i for i in INVS) + ("INVARIANT EmitCase\n" if emit else "") + "CHECK_DEADLOCK FALSE\n"
-    return _tlc("FindMissing", consts_of(shape, rule), tail,
-                      name="MC_FindMissing_%s_%s" % (shape[0], rule), **kw)
+    return _tlc("FindMissing", consts_of(shape, rule, labelby=labelby), tail,
+                name="MC_FindMissing_%s_%s%s" % (shape[0], rule, "" if labelby == "given" else "_" + labelby), **kw)
 
 
 # ---------------------------------------------------------------------------
@@ -265,6 +265,15 @@ def ignore_arg(c):
     return ["t", {"t"}][c["idx"] % 2]          # the documented spellings: a name or a set of names
 
 
+def sig_order(c):
+    """the order in which the Runner's function lists the parameters: a permutation of the dataset's dimension
+    order (all permutations are visited as the case index runs)"""
+    import itertools
+    dims = dims_of(c)
+    perms = list(itertools.permutations(range(len(dims))))
+    return [dims[i] for i in perms[c.get("sigperm", 0) % len(perms)]]
+
+
 def make_harvester(xyz, c, ds, pattern=False):
     """A real Harvester around `ds` whose function takes the parameter dimensions as arguments and
     returns data in every slot - or, with pattern=True, the emitted pattern's value for the slot."""
@@ -289,7 +298,8 @@ def make_harvester(xyz, c, ds, pattern=False):
         return out if nv > 1 else out[0]
 
     # a signature with the parameter names, as a user's function would have
-    src = "lambda %s: _f(%s)" % (", ".join(dims), ", ".join("%s=%s" % (d, d) for d in dims))
+    sig = dims if pattern else sig_order(c)
+    src = "lambda %s: _f(%s)" % (", ".join(sig), ", ".join("%s=%s" % (d, d) for d in dims))
     f = eval(src, {"_f": fn})
     names = VARS[:nv] if nv > 1 else VARS[0]
     var_dims = {VARS[v - 1]: ["t"] for v in intvars} or None
@@ -396,15 +406,31 @@ def check_one(c):
         if got == want:
             try:
                 h = make_harvester(xyz, c, ds.copy(deep=True))
+                style = c.get("casestyle", "tuple")
+                how = "harvest_cases(cases, fn_args=fn_args) [tuple cases, Runner signature %r, dataset order %r]" % (
+                    tuple(sig_order(c)), tuple(dims))
                 if cases:
-                    h.harvest_cases(cases, fn_args=fn_args, overwrite=(True if method == "isfinite" else None), verbosity=0)
-                _, again = xyz.find_missing_cases(h.full_ds, ignore_dims=ig, method=method)
+                    ow = True if method == "isfinite" else None
+                    if style == "dict":
+                        how = "harvest_cases(dict cases) [Runner signature %r, dataset order %r]" % (tuple(sig_order(c)), tuple(dims))
+                        h.harvest_cases([dict(zip(fn_args, case)) for case in cases], overwrite=ow, verbosity=0)
+                    else:       # exactly as the docs show: the tuples and the fn_args find_missing_cases returned
+                        h.harvest_cases(cases, fn_args=fn_args, overwrite=ow, verbosity=0)
+                full = h.full_ds
+                _, again = xyz.find_missing_cases(full, ignore_dims=ig, method=method)
             except Exception as e:  # noqa
                 bad.append(("loop-raises", "find -> harvest_cases(reported) -> find raised %s: %s" % (type(e).__name__, e)))
             else:
                 if len(again) != 0:
-                    bad.append(("loop-left", "after harvesting exactly the %d reported cases find_missing_cases still reports %r"
-                                % (len(cases), [tuple(x) for x in again])))
+                    bad.append(("loop-left", "after %s of exactly the %d reported cases %r find_missing_cases still reports %r"
+                                % (how, len(cases), [tuple(x) for x in cases], [tuple(x) for x in again])))
+                for d in dims:
+                    before = sorted(np.asarray(ds[d].values).tolist(), key=repr)
+                    after = sorted(np.asarray(full[d].values).tolist(), key=repr) if d in full.coords else None
+                    if before != after:
+                        bad.append(("loop-grew", "after %s of exactly the reported cases %r coordinate %r is %r, it was %r"
+                                    % (how, [tuple(x) for x in cases], d, after, before)))
+                        break
     else:
         want = [list(s) for s in c["expect"]]
         combos = {}
@@ -490,7 +516,8 @@ def run(rep):
         "internal dimension of size 2; the 16-location shape is model-checked only",
         "coordinate flavours (int unsorted / float / str / mixed), the stored dimension order of the variables (natural / "
         "every variable permuted against the dataset's order / variables 2.. reversed), growth of the three-dimensional "
-        "patterns by a real Harvester (expand_dims then harvest_cases, ascending coordinates), the dtype of variables that "
+        "patterns by a real Harvester (expand_dims then harvest_cases, ascending coordinates), the order in which the "
+        "Runner's function lists its parameters (every permutation) and tuple vs dict cases in the harvest loop, the dtype of variables that "
         "hold data everywhere (float / int / bool / str), Dataset vs DataArray and the "
         "spelling of ignore_dims are rotated over the emitted cases by the harness, not enumerated by TLC",
         "the harvest step of the find->harvest->find loop uses overwrite=True under the isfinite criterion (a reported "
@@ -510,7 +537,13 @@ def run(rep):
         bug_shape = ("bug", [2, 2], 2, [2], V3, BOTH, ("allnan", "alldata", "s1nan", "s1data", "naninf"), ALLREQ, False, None)
         for rule in BUGGY_RULES:
             jobs[("bug", rule)] = ex.submit(run_shape, bug_shape, rule=rule, workers=1)
+        label_shape = ("label", [3, 2], 1, [], ("data", "nan"), ("isnull",), "cells", (), False, None)
+        jobs[("label", "signature")] = ex.submit(run_shape, label_shape, labelby="signature", workers=1)
         results = {k: f.result() for k, f in jobs.items()}
+    if results[("label", "signature")].violated is None:
+        raise tlc.TLCError("self-test failed: labelling the reported tuples by the runner's signature is not rejected")
+    rep.note("self-test: LabelBy='signature' (harvest labels the reported tuples with the runner's own argument order) is "
+             "rejected by TLC: %s" % results[("label", "signature")].violated)
     for rule, text in BUGGY_RULES.items():
         r = results[("bug", rule)]
         if r.violated is None:
@@ -544,6 +577,8 @@ def run(rep):
             cc = dict(c)
             cc["variant"] = fl
             cc["layout"] = ["natural", "permuted", "transposed"][n % 3]
+            cc["sigperm"] = n // 2                   # the Runner's signature: every permutation of the dimensions in turn
+            cc["casestyle"] = "dict" if n % 4 == 1 else "tuple"
             # variables all of whose cells hold data become int / bool / str variables (at least one float variable
             # stays; str only under isnull: np.isfinite is not defined for strings)
             full = [v for v in range(1, c["nv"] + 1) if _all_data(c, v)]
